@@ -89,6 +89,13 @@ TEXT["C10"] = dict(engine="verus+engineB",
    level="Unbounded deductive proof: every successful reply (OFFER and ACK) carries option 51 equal to recorded_expiry - recorded_start of the row written for yiaddr, "
          "that value lies in [300, 86400] (the defaults; nothing can set other bounds), the record starts at the clock reading of the reply and expiry = start + L without wrap-around.",
    note="Assumed: SQL stub contracts, clock < 0xF0000000, apply_policies leaves min/max lease untouched, ResponseOptions/DhcpOptions accessor contracts (HashMap glue). Renewal rhythm is covered because the bound holds for every table and request.")
+TEXT["C11"] = dict(engine="verus",
+   technique="Verus postconditions on the real check_policy / check_policies / apply_policy / apply_policies (mutual recursion over the policy tree, HashMap iteration through vstd's prophetic iterator contract) and on the five ResponseOptions methods, against a recursive specification written from the property statement",
+   level="Unbounded deductive proof, for every policy tree, request and prior response state: check_policy returns MatchFailed iff some condition fails, else MatchSucceeded iff the policy has a condition, else NoMatch; "
+         "apply_policy/apply_policies return whether a policy applies (all conditions hold and, without conditions, some sub-policy applies) and leave the response equal to apply_one/apply_list: only the first applicable sibling is applied, "
+         "a policy's own apply-options (restricted to the client's parameter request list; null stored as do-not-send) override what outer policies set, then its first applicable child is applied, then netmask (1) / broadcast (28) of its match-subnet are filled in unless already set or nulled; "
+         "non-applicable policies change nothing; lease bounds are never touched; to_options sends exactly the entries that carry a value.",
+   note="Not decided: build_default_config (top-level defaults, $self4 substitution, MTU/router of the receiving interface) -- iterator-adapter chains, see DESIGN 10; interface matching (match-interface is parsed but never evaluated by the code). Assumed: see evidence.")
 TEXT["C13"] = dict(engine="verus+engineB",
    technique="Verus postconditions on handle_pkt / handle_request / handle_discover (frame over the abstract lease table, echo of header fields, server-id) + engine B frame check on real SQLite",
    level="Unbounded deductive proof: handle_pkt returns Ok only for message types 1 (DISCOVER) and 3 (REQUEST); every Err leaves the lease table exactly as it was; a REQUEST whose "
